@@ -29,6 +29,7 @@ pub proof fn lemma_sesc_push(s: Seq<u8>, b: u8)
     }
 }
 // the content-stream tokenizer (and any ISO reader: no raw EOL byte is ever emitted) reads the original bytes back
+#[verifier::spinoff_prover]
 pub proof fn lemma_show_roundtrip(s: Seq<u8>, pre: Seq<u8>, rest: Seq<u8>, acc: Seq<u8>)
     ensures lit_dec(pre + sesc(s) + seq![0x29u8] + rest, pre.len() as int, 1, acc) == (acc + s, (pre.len() + sesc(s).len() + 1) as int),
     decreases s.len()
